@@ -69,6 +69,49 @@ let handle kind c =
              prop "parse-sound" (Printf.sprintf "stream %s: Parse returned %s=%s which is no linked record of the input"
                                    stream (String.escaped (fst kv)) (snd kv))) cs
      | _ -> ())
+  | "read" ->
+    let phase = next c in
+    let data = next_bytes c in
+    let reads = next_list c (fun c -> let name = next_bytes c in let tag = next c in let v = next_n c in (name, tag, v)) in
+    let rf_tag = next c in
+    let rf = if rf_tag = "ok" then begin
+        let cs = next_list c (fun c -> let k = next_bytes c in let v = next_n c in (str k, tok_of_n v)) in
+        let ss = next_list c (fun c -> let k = next_bytes c in let v = next_n c in (str k, tok_of_n v)) in
+        Some (cs, ss) end else None in
+    let sr = spec_read data in
+    let spec_counts = match sr with
+      | Some ((((_, _), _), _), tbl) -> Some (List.map (fun ((_, name), v) -> (decode_stack name, v)) (List.concat tbl))
+      | None -> None in
+    let show_r = function RdErr -> "err" | RdNotFound -> "notfound" | RdVal v -> "ok " ^ tok_of_n v in
+    List.iter (fun (name, tag, v) ->
+        let impl = if tag = "ok" then "ok " ^ tok_of_n v else tag in
+        (match tag with
+         | "hang" -> prop "read-hang" (Printf.sprintf "phase %s: Read(%s) did not return" phase (String.escaped (str name)))
+         | "panic" -> prop "read-panic" (Printf.sprintf "phase %s: Read(%s) panicked" phase (String.escaped (str name)))
+         | _ ->
+           check_eq ("read-" ^ phase) (fun x -> x) (show_r (read_counter data name)) impl;
+           (* oracle: the file on disk is well-formed, so Read has to return what an independent
+              reader finds under the expanded name *)
+           (match spec_counts with
+            | Some cs ->
+              let want = match find_last (decode_stack name) cs with Some v -> "ok " ^ tok_of_n v | None -> "notfound" in
+              if impl <> want then
+                prop "read-faithful"
+                  (Printf.sprintf "phase %s, well-formed file of %d bytes: Read(%s) = %s, the file holds %s"
+                     phase (List.length data) (clip (String.escaped (str name))) impl want)
+            | None -> ()))) reads;
+    (* ReadFile *)
+    let norm l = List.sort compare (List.map (fun (k, v) -> (str k, tok_of_n v)) l) in
+    let model_rf = match read_file data with Some (cs, ss) -> Some (norm cs, norm (last_wins ss)) | None -> None in
+    let show_rf = function
+      | None -> "err"
+      | Some (cs, ss) -> clip (Printf.sprintf "counters=%s stacks=%s"
+                                 (String.concat ";" (List.map (fun (k, v) -> String.escaped k ^ "=" ^ v) cs))
+                                 (String.concat ";" (List.map (fun (k, v) -> String.escaped k ^ "=" ^ v) ss))) in
+    if model_rf <> rf then diff "readfile" ~model:(show_rf model_rf) ~impl:(show_rf rf);
+    (match spec_counts, rf with
+     | Some _, None -> prop "read-faithful" (Printf.sprintf "phase %s: ReadFile fails on a well-formed file of %d bytes" phase (List.length data))
+     | _ -> ())
   | k -> diff "unknown-case-kind" ~model:k ~impl:"-"
 
 let () = run_file Sys.argv.(1) handle
